@@ -255,6 +255,13 @@ class InlineTranslator:
 
         # replace body aggregate with inlined version of the conditions
         rbody = [blit for blit in stm.body if not (blit.ast_type == ASTType.Literal and blit.atom == agg)]
+        # the value is paid once per distinct (value, tuple): global variables the aggregate depends on must be
+        # part of the tuple, otherwise different values of one tuple are merged into one set of elements
+        tuple_vars = set(collect_ast(stm.priority, "Variable"))
+        for term in stm.terms:
+            tuple_vars.update(collect_ast(term, "Variable"))
+        if not (set(collect_ast(agg, "Variable")) & global_vars_inside_body(rbody)) <= tuple_vars:
+            return [stm]
         new_minimizes = []
         max_arity = 0
         for tuple_ in self.minimize_tuples:
